@@ -504,13 +504,11 @@ class Concatenator(Group):  # pylint: disable=too-many-public-methods
                 object_ids.remove(as_str_if_uuid(entity.uid).encode())
                 self.concatenated_object_ids = object_ids
 
-            for field, label in (
-                ("surveys", "surveys"),
-                ("trace", "trace"),
-                ("property_groups", "property_group_ids"),
-            ):
-                if self.fetch_index(entity, label) is not None:
-                    self.update_array_attribute(entity, field, remove=True)
+            for field in ("surveys", "trace", "property_group_ids"):
+                index = self.fetch_index(entity, field)
+                if index is not None:
+                    self.delete_index_data(KEY_MAP[field], index)
+                    self.save_attribute(field)
 
         elif isinstance(entity, ConcatenatedPropertyGroup):
             # Remove all data within the group
